@@ -39,7 +39,35 @@ def _mk(i):
     return plug
 
 
-PLUGS = [_mk(i) for i in range(3)]
+class _Ext:
+    """plugin 2 is a bound method: every access to `_EXT.on` is a new, equal object - registries that behave as sets compare by
+    equality, not identity"""
+
+    def on(self, tape, stack, cache):
+        CALLS.append(('p', 2))
+        return True
+
+
+_EXT = _Ext()
+PLUGS = [_mk(0), _mk(1), _EXT.on]
+
+
+def _plugin(i):
+    return _EXT.on if i == 2 else PLUGS[i]
+
+
+def _mk_oneshot(scope, idx):
+    def oneshot(tape, stack, cache):
+        # a run-once hook: takes itself out of the registry when it is invoked
+        CALLS.append(('p', idx))
+        F.remove_plugin(scope, oneshot)
+        return True
+    oneshot.__name__ = 'oneshot_' + scope
+    return oneshot
+
+
+ONESHOT = {sc: _mk_oneshot(sc, 3 + k) for k, sc in enumerate(SCOPES)}
+PLUGS += [ONESHOT[sc] for sc in SCOPES]
 
 
 @runtime_checkable
@@ -141,19 +169,26 @@ class Interp:
     def op_addp(self, si, i, wrapper=False):
         scope = SCOPES[si % 2]
         if wrapper and scope == 'signature_extensions':
-            F.add_signature_extension(PLUGS[i % 3])
+            F.add_signature_extension(_plugin(i % 3))
         else:
-            F.add_plugin(scope, PLUGS[i % 3])
+            F.add_plugin(scope, _plugin(i % 3))
         if PLUGS[i % 3] not in self.plug[scope]:
             self.plug[scope].append(PLUGS[i % 3])
+        self.adds += 1
+
+    def op_addone(self, si):
+        scope = SCOPES[si % 2]
+        F.add_plugin(scope, ONESHOT[scope])
+        if ONESHOT[scope] not in self.plug[scope]:
+            self.plug[scope].append(ONESHOT[scope])
         self.adds += 1
 
     def op_remp(self, si, i, wrapper=False):
         scope = SCOPES[si % 2]
         if wrapper and scope == 'signature_extensions':
-            F.remove_signature_extension(PLUGS[i % 3])
+            F.remove_signature_extension(_plugin(i % 3))
         else:
-            F.remove_plugin(scope, PLUGS[i % 3])
+            F.remove_plugin(scope, _plugin(i % 3))
         if PLUGS[i % 3] in self.plug[scope]:
             self.plug[scope].remove(PLUGS[i % 3])
         if self.adds >= 2:
@@ -217,7 +252,7 @@ class Interp:
         cache = {'sigfield1': b'abc', 'extra': [1, b'x']}
         contracts = {b'\x09' * 4: CONS[1]} if via % 2 else {}
         plugins = {'other_scope': [PLUGS[2]]} if via % 2 else {}
-        before = copy.deepcopy((cache, list(contracts), {k: list(v) for k, v in plugins.items()}))
+        before = (copy.deepcopy(cache), list(contracts), {k: list(v) for k, v in plugins.items()})    # callables are not copied
         try:
             if via < 2:
                 F.run_script(PROBE, cache, contracts, plugins=plugins)
@@ -233,8 +268,15 @@ class Interp:
         after = (cache, list(contracts), {k: list(v) for k, v in plugins.items()})
         if after != before:
             self.fail('run/caller-dictionary-modified', '%r -> %r' % (before, after))
-        exp_p = sorted([PLUGS.index(p) for p in self.plug['signature_extensions']] * 2 +
+        # the probe reaches the signature plugins twice and the template plugins once; a run-once hook is active for the first
+        # invocation of its scope only and inactive afterwards
+        sig_active = self.plug['signature_extensions']
+        exp_p = sorted([PLUGS.index(p) for p in sig_active] + [PLUGS.index(p) for p in sig_active if p not in ONESHOT.values()] +
                        [PLUGS.index(p) for p in self.plug['check_template']])
+        for sc in SCOPES:
+            if ONESHOT[sc] in self.plug[sc]:
+                self.plug[sc].remove(ONESHOT[sc])
+                self.nontrivial = True
         got_p = sorted(c[1] for c in CALLS if c[0] == 'p')
         if got_p != exp_p:
             kind = 'inactive-plugin-invoked' if len(got_p) > len(exp_p) or set(got_p) - set(exp_p) else 'active-plugin-not-invoked'
@@ -313,7 +355,7 @@ def run_history(steps):
     return it
 
 
-VALID_OPS = {'addp': 2, 'remp': 2, 'resetp': 1, 'addc': 1, 'remc': 1, 'addi': 1, 'remi': 1, 'alias': 1, 'run': 0, 'compile': 2}
+VALID_OPS = {'addp': 2, 'remp': 2, 'resetp': 1, 'addone': 1, 'addc': 1, 'remc': 1, 'addi': 1, 'remi': 1, 'alias': 1, 'run': 0, 'compile': 2}
 
 
 def check_case(case):
@@ -342,7 +384,7 @@ def alphabets():
     A = {}
     for si in range(2):
         A['plugins:' + SCOPES[si]] = ([['addp', si, i] for i in range(3)] + [['remp', si, i] for i in range(3)] +
-                                      [['resetp', si], ['run', si * 2]])
+                                      [['resetp', si], ['run', si * 2], ['addone', si]])
     A['contracts+interfaces'] = ([['addc', 0], ['addc', 1], ['remc', 0], ['remc', 1], ['addi', 0], ['remi', 0], ['addi', 1],
                                   ['remi', 1], ['run', 1]])
     A['compile+aliases'] = ([['compile', si, ei] for si in range(NBASE) for ei in (0, 2, 3)] + [['compile', 1, 1], ['alias', 0], ['alias', 1]])
@@ -393,6 +435,10 @@ def make_machine(ctx):
         @rule(si=st.integers(0, 1), i=st.integers(0, 2), w=st.booleans())
         def remp(self, si, i, w):
             self._go(['remp', si, i, w])
+
+        @rule(si=st.integers(0, 1))
+        def addone(self, si):
+            self._go(['addone', si])
 
         @rule(si=st.integers(0, 1), w=st.booleans())
         def resetp(self, si, w):
